@@ -299,6 +299,9 @@ func (e *Env) convert(v Value, to types.Type) Value {
 
 // zeroValue of a Go type. nilOK: produce nil for reference types.
 func (e *Env) zeroValue(t types.Type, nilOK bool) Value {
+	if as := abstractSort(t); as != nil {
+		return Scalar{App("zero$"+as.Name, as), t}
+	}
 	switch u := t.Underlying().(type) {
 	case *types.Basic:
 		if u.Info()&types.IsBoolean != 0 {
@@ -1415,6 +1418,12 @@ func (e *Env) composite(n *ast.CompositeLit) Value {
 	t := e.typeOf(n)
 	if t == nil {
 		unsupported("%s: composite literal without type information", e.where)
+	}
+	if as := abstractSort(t); as != nil {
+		if len(n.Elts) > 0 {
+			unsupported("%s: composite literal of abstract type %s with fields", e.where, t)
+		}
+		return Scalar{App("zero$"+as.Name, as), t}
 	}
 	switch u := t.Underlying().(type) {
 	case *types.Struct:
